@@ -273,7 +273,15 @@ def c12_state(ctx):
     state_discipline(ctx, ('bespokeasm.assembler.bytecode', 'bespokeasm.assembler.model.operand'))
 
 
-RULES = [c12_1, c12_2, c12_3, c12_4, c12_macro_steps, c12_state]
+def c12_paths(ctx):
+    """A constraint is enforced where the value is computed: every byte-producing line must be generated (C02.3), and no operand
+    may give a literal a value on a path of its own that skips the checked parts (C07.6)."""
+    from rules.c02 import c02_3
+    from rules.c07 import c07_who
+    c02_3(ctx)
+    c07_who(ctx)
+
+RULES = [c12_1, c12_2, c12_3, c12_4, c12_macro_steps, c12_state, c12_paths]
 
 _P = 'assembler/bytecode/parts.py'
 _R = 'assembler/model/operand/types/relative_address.py'
